@@ -823,7 +823,8 @@ def nodup (xs : List String) : Bool :=
 
 mutual
 /-- `iters`: iteration variables of the enclosing comprehensions of this scope; `inIter`: inside a
-    comprehension iterable; `inCls`: directly in a class body. -/
+    comprehension iterable (CPython refuses an assignment expression anywhere below an iterable,
+    lambdas and nested comprehensions included); `inCls`: directly in a class body. -/
 def Expr.wf (iters : List String) (inComp inIter inCls : Bool) : Expr → Bool
   | .name _ => true
   | .const _ => true
@@ -831,16 +832,16 @@ def Expr.wf (iters : List String) (inComp inIter inCls : Bool) : Expr → Bool
   | .tuple es => wfL iters inComp inIter inCls es
   | .comp _ elt cls =>
     !cls.isEmpty && cls.length ≤ 3 &&
-    wfC (cls.map (·.1) ++ iters) inCls cls && elt.wf (cls.map (·.1) ++ iters) true inIter inCls
-  | .lam ps body => nodup ps && body.wf [] false false false
+    wfC (cls.map (·.1) ++ iters) inIter inCls cls && elt.wf (cls.map (·.1) ++ iters) true inIter inCls
+  | .lam ps body => nodup ps && body.wf [] false inIter false
   | .call f args => f.wf iters inComp inIter inCls && wfL iters inComp inIter inCls args
   | .append t e => t.wf iters inComp inIter inCls && e.wf iters inComp inIter inCls
 def wfL (iters : List String) (inComp inIter inCls : Bool) : List Expr → Bool
   | [] => true
   | e :: es => e.wf iters inComp inIter inCls && wfL iters inComp inIter inCls es
-def wfC (iters : List String) (inCls : Bool) : List (String × Expr × List Expr) → Bool
+def wfC (iters : List String) (inIter inCls : Bool) : List (String × Expr × List Expr) → Bool
   | [] => true
-  | (_, it, cs) :: rest => it.wf iters true true inCls && wfL iters true false inCls cs && wfC iters inCls rest
+  | (_, it, cs) :: rest => it.wf iters true true inCls && wfL iters true inIter inCls cs && wfC iters inIter inCls rest
 end
 
 def wfBody (inCls : Bool) : List (String × Expr) → Bool
